@@ -8,7 +8,7 @@ from typing import Any, Dict, List, Optional, Set, Tuple
 from ..core import AnalysisError, Report
 from ..pycfg import build_py_cfg
 from ..pysubst import Outcome, method_outcomes
-from ..pyfacts import Repo, calls, dotted, eval_int_expr, norm, raise_guards, raised_class, walk_no_nested
+from ..pyfacts import expand_private_calls, Repo, calls, dotted, eval_int_expr, norm, raise_guards, raised_class, walk_no_nested
 
 D = 'flipjump/interpreter/io_devices/'
 PACKERS = [(D + 'FixedIO.py', 'FixedIO'), (D + 'StandardIO.py', 'StandardIO'), (D + 'KeyboardIO.py', 'KeyboardIO'),
@@ -166,7 +166,7 @@ def rule_unpack(rep: Report, repo: Repo) -> None:
             why = f'count={cnt} byte={byte} source={src}: steady={s_steady} refill={s_refill} only-other-paths-raise-without-effects={s_rest}'
         rep.check(ok, 'C17.UNPACK', f'{cls}.read_bit', why, site)
     for name, n in (('_queue_input_byte', 8), ('_queue_input_hex', 4)):
-        fn = repo.func(KBD, f'KeyboardIO.{name}')
+        fn = expand_private_calls(repo, KBD, repo.func(KBD, f'KeyboardIO.{name}'), 'KeyboardIO')          # a shared `queue the low n bits` helper reads in place
         # the bits queued, in order, whichever way the sequence is written: an append loop, or extend() of a comprehension /
         # generator; the element is folded on a grid of values and positions
         seqs: List[Tuple[ast.expr, ast.expr, str]] = []
@@ -228,7 +228,7 @@ def rule_eof(rep: Report, repo: Repo) -> None:
     rep.check(not raises, 'C17.EOF', 'KeyboardIO:never-EOF', f'raises in the read closure: {raises}', KBD)
     rb = repo.func(KBD, 'KeyboardIO.read_bit')
     ok = len(rb.body) == 2 and isinstance(rb.body[0], ast.If) and norm(rb.body[0].test) == 'not self._pending_input_bits' \
-        and norm(rb.body[0].body[0]) == 'self._poll()' and norm(rb.body[1]) == 'return self._pending_input_bits.popleft()'
+        and norm(rb.body[0].body[0]) == 'self._poll()' and norm(rb.body[1]) in ('return self._pending_input_bits.popleft()', 'return self._pending_input_bits.pop(0)')       # the head of the fifo (producers append at the end: UNPACK)
     rep.check(ok, 'C17.EOF', 'KeyboardIO.read_bit:poll-before-pop', ' ; '.join(norm(s).replace('\n', ' ') for s in rb.body)[:100], f'{KBD}:{rb.lineno}')
 
 
@@ -247,7 +247,7 @@ def rule_incomplete(rep: Report, repo: Repo) -> None:
         returning = [o for o in outs if o.result[0] == 'return']
         ok = (cnt is not None and len(raising) == 1 and raising[0].result == ('raise', 'IncompleteOutput')
               and sorted(raising[0].conds) == sorted([f'0 != {cnt}', 'not allow_incomplete_output']) and not raising[0].state
-              and bool(returning) and all(o.result == ('return', sink) and not o.state and not o.effects for o in returning)
+              and bool(returning) and all(o.result in (('return', sink), ('return', f'bytes({sink})')) and not o.state and not o.effects for o in returning)      # a bytearray buffer is handed out as an immutable copy
               and len(outs) == len(raising) + len(returning))
         rep.check(ok, 'C17.INCOMPLETE', f'{cls}.get_output', f'{[(o.conds, o.result) for o in outs]}', f'{rel}:{go.lineno}',
                   expected=f'raise IncompleteOutput iff {cnt} != 0 and not allow_incomplete_output; else return {sink}')
